@@ -62,6 +62,15 @@ func c02(c *ev.Ctx) {
 				c.Count("trace_events_checked", len(mv[0].Trace))
 			}
 		}
+		// the same assignments as one history on a single evaluator (variables persist by
+		// design; the model carries them too): earlier runs must not disturb later ones
+		var seq []map[string]model.Value
+		for _, mask := range r.Perm(1 << k) {
+			seq = append(seq, condObject(env.Fields, k, mask, r))
+		}
+		if judged := checkProgramAgainstModel(c, id+"/sequence", "structured program, run sequence on one evaluator", p, env.Vars, seq, noOpt); judged > 0 {
+			c.Count("sequence_runs_judged", judged)
+		}
 		c.SampleEvery(i, func() interface{} { return map[string]interface{}{"script": script, "cond_fields": k} })
 	})
 
